@@ -150,6 +150,9 @@ func toPayload(r *graphql.Response) *Payload {
 	return p
 }
 
+// ParseBody parses a JSON GraphQL response body ({data, errors}) into a Payload.
+func ParseBody(body string) *Payload { return httpPayload(body) }
+
 // httpPayload parses a JSON GraphQL response body into a Payload.
 func httpPayload(body string) *Payload {
 	p := &Payload{Raw: body}
